@@ -4,13 +4,15 @@ set -u
 here=$(cd "$(dirname "$0")" && pwd)
 . "$here/bin/env.sh"
 cd "$here/mc" && cp -n /repo/go.sum go.sum 2>/dev/null
-go build ./... || exit 1
-for d in "$here"/mc/harness/c[0-9][0-9]/; do
-  lc=$(basename "$d")
+go build $(go list ./... | grep -v /harness/) || exit 1
+warm() {
+  lc=$1
   work="$here/.work/setup.$lc"; mkdir -p "$work"
   "$here/bin/mkoverlay" "$lc" "$work" && (cd "$here/mc" && go test -c -tags verif -vet=off -overlay "$work/overlay.json" -o /dev/null "./harness/$lc") || echo "setup: warm build of $lc failed"
   rm -rf "$work"
-done
+}
+export -f warm; export here
+ls -d "$here"/mc/harness/c[0-9][0-9]/ | xargs -n1 basename | xargs -P 6 -I{} bash -c 'warm {}'
 # native drivers and BPF objects are rebuilt by each check from the current tree; build once here to fail early
 mkdir -p "$here/.work/setup-native" && "$here/native/build.sh" "$here/.work/setup-native" /repo && "$here/native/kbuild.sh" "$here/.work/setup-native/k" /repo || echo "setup: native build failed"
 rm -rf "$here/.work/setup-native"
